@@ -31,7 +31,7 @@ for m in muts:
         s = open(p).read()
         if m["old"] not in s:
             print(f"{m['id']}: PATCH DOES NOT APPLY"); ok = False; continue
-        open(p, "w").write(s.replace(m["old"], m["new"], 1))
+        open(p, "w").write(m.get("extra_import", "") + s.replace(m["old"], m["new"], 1))
         line = f"{m['id']} ({m['property']}):"
         if suite:
             r = subprocess.run([os.path.join(ROOT, "tools", "suite.py"), d], capture_output=True, text=True)
